@@ -62,9 +62,21 @@ func init() {
 			k.PWorldFallback = 40
 			ec = gen.NewTG(t, k).Case()
 		}
-		// arbitrary variable texts
-		for _, d := range ec.Script.Vars {
+		// arbitrary variable texts: either every variable is up for grabs, or (light mode)
+		// only one of them, so that execution gets further before anything goes wrong
+		light := gen.Chance(t, "c12.light", 50)
+		victim := -1
+		if light && len(ec.Script.Vars) > 0 {
+			victim = gen.Uniform(t, "c12.victim", len(ec.Script.Vars)+1) // may select none
+		}
+		for i, d := range ec.Script.Vars {
 			if d.Origin != nil {
+				continue
+			}
+			if light && i != victim {
+				if _, ok := ec.Vars[d.Name]; !ok {
+					ec.Vars[d.Name] = gen.Pick(t, "c12.vartext3", varTexts)
+				}
 				continue
 			}
 			switch gen.Uniform(t, "c12.varmode", 5) {
